@@ -509,6 +509,9 @@ func toSubdomainURL(hostname, path string, r *http.Request, inlineDNSLink bool, 
 	if err != nil {
 		return "", err
 	}
+	// net/url only renders a fragment when Fragment is set; RawFragment is an
+	// optional encoding hint for it.
+	u.Fragment = r.URL.Fragment
 	u.RawFragment = r.URL.RawFragment
 	u.RawQuery = r.URL.RawQuery
 	if rest != "" {
